@@ -2,7 +2,27 @@
 //@@INCLUDE _shared/ispec.rs
 //@@INCLUDE _shared/num_bigint.rs
 //@@INCLUDE _shared/std_gaps.rs
-//@@INCLUDE _shared/diagn_opaque.rs
+pub mod diagn {
+    use vstd::prelude::*;
+    use crate::*;
+    verus! {
+    #[verifier::external_body]
+    pub struct Report { _p: u8 }
+    impl Report {
+        #[verifier::external_body]
+        pub fn new() -> Report { unimplemented!() }
+    }
+    impl Clone for Span {
+        #[verifier::external_body]
+        fn clone(&self) -> (r: Span) ensures r == *self { unimplemented!() }
+    }
+    impl Copy for Span {}
+    impl Span {
+        pub open spec fn is_dummy(&self) -> bool { self.location.0 == usize::MAX }
+    }
+    //@@ITEMS diagn
+    }
+}
 pub mod util {
     use vstd::prelude::*;
     use vstd::std_specs::convert::*;
@@ -14,17 +34,9 @@ pub mod util {
     broadcast use {crate::num_bigint::axiom_into_refl_obeys, crate::num_bigint::axiom_into_refl};
     //@@INCLUDE _shared/util_bigint_spec_min.rs
     //@@INCLUDE _shared/bitvec_spec.rs
-
     //@@INCLUDE _shared/acc_spec.rs
-    pub proof fn lemma_shift_or16(x: u16, b: u16)
-        requires x < 32768, b <= 1
-        ensures ((x << 1u16) | b) == x * 2 + b
-    {
-        assert(((x << 1u16) | b) == x * 2 + b) by (bit_vector) requires x < 32768, b <= 1;
-    }
     //@@INCLUDE u_format/fmt_spec_core.rs
-    //@@INCLUDE u_format/fmt_spec.rs
-    //@@INCLUDE u_format/dump_spec.rs
+    //@@INCLUDE u_listing/spec.rs
     //@@ITEMS util
     }
 }
